@@ -11,7 +11,7 @@ for k in $(seq 1 $lanes); do
     rsync -a --exclude .git --exclude .work --exclude replays --exclude '.regress*' /verif/ $root/verif/
     git -C /repo worktree add -q --detach $root/repo HEAD || exit 2
     awk -v k=$k -v n=$lanes 'NR % n == k % n' /tmp/rg_all.txt | while read d; do
-      name=$(basename $d); pid=${name%%-*}
+      name=$(basename $d); pid=${name%%-*}; alt=$(jq -r '.check_with // empty' /verif/$d/meta.json); [ -n "$alt" ] && pid=$alt
       if ! git -C $root/repo apply --check /verif/$d/patch.diff 2>/dev/null; then echo "$name: PATCH-DOES-NOT-APPLY" >> /verif/.regress.log; continue; fi
       git -C $root/repo apply /verif/$d/patch.diff
       out=$(VERIF_REPO=$root/repo $root/verif/check $pid 2>&1)
